@@ -29,7 +29,23 @@ def main():
         print('MACHINERY-FAILURE %s: %s' % (pid, e))
         sys.exit(2)
     except Exception:
+        tb = traceback.format_exc()
         traceback.print_exc()
+        # An exception raised INSIDE bitcoinlib that a driver did not expect: on the unchanged tree no check run ends
+        # this way, so this is the library misbehaving on a call the property covers - reported as a violation
+        # (with the traceback as replay file), not as a failure of the machinery.
+        lib = os.path.join(os.path.abspath(common.REPO), 'bitcoinlib') + os.sep
+        last_frames = [l for l in tb.splitlines() if l.strip().startswith('File "')]
+        if last_frames and any(lib in l for l in last_frames[-12:]) and 'MachineryError' not in tb:
+            import hashlib
+            rdir = os.path.join(common.VERIF, 'replays', pid)
+            os.makedirs(rdir, exist_ok=True)
+            path = os.path.join(rdir, 'exception_%s.json' % hashlib.sha256(tb.encode()).hexdigest()[:12])
+            with open(path, 'w') as f:
+                json.dump({'property': pid, 'what': 'unexpected exception raised inside bitcoinlib during the check', 'traceback': tb}, f, indent=1)
+            print('VIOLATION property=%s replay=%s' % (pid, path))
+            print('  unexpected exception raised inside bitcoinlib during the check: %s' % tb.strip().splitlines()[-1][:300])
+            sys.exit(1)
         print('MACHINERY-FAILURE %s: unexpected exception in the harness' % pid)
         sys.exit(2)
     sys.stdout.flush()
